@@ -235,8 +235,16 @@ func histWorker(req N) (resp N) {
 		if isImport {
 			fnKey, src = fmt.Sprintf("imp%d", modIdx), impSnippet(modIdx)
 		}
+		escaped := ""
 		if inv["api"] == "Call" {
-			val, rerr = machine.Call(ctxs[i], fns[fnKey], nil)
+			func() {
+				defer func() {
+					if r := recover(); r != nil {
+						escaped = fmt.Sprint(r)
+					}
+				}()
+				val, rerr = machine.Call(ctxs[i], fns[fnKey], nil)
+			}()
 		} else {
 			// RunCode replaces the loaded code, so every snippet carries the function library with it and
 			// later Call invocations use the functions of the code that is loaded then (as risor.Call does)
@@ -244,7 +252,14 @@ func histWorker(req N) (resp N) {
 			if cerr != nil {
 				return N{"k": "nosnippet", "msg": cerr.Error()}
 			}
-			rerr = machine.RunCode(ctxs[i], code, vmOpts...)
+			func() {
+				defer func() {
+					if r := recover(); r != nil {
+						escaped = fmt.Sprint(r)
+					}
+				}()
+				rerr = machine.RunCode(ctxs[i], code, vmOpts...)
+			}()
 			if rerr == nil {
 				if tos, ok := machine.TOS(); ok {
 					val = tos
@@ -261,6 +276,10 @@ func histWorker(req N) (resp N) {
 		// classify what the caller of the API saw
 		obs := ""
 		switch {
+		case escaped != "":
+			// a Go panic came out of the API call itself (not an error value)
+			obs = "gopanic"
+			rerr = fmt.Errorf("Go panic out of the API call: %s", escaped)
 		case rerr == nil:
 			want := (before+1)*1000 + 44850%7
 			if iv, ok := val.(*object.Int); (kind == "normal" || kind == "impok") && ok && iv.Value() == want {
